@@ -94,12 +94,16 @@ def run_job(job):
             elif do == "deliver":
                 n = vprogs.node(prog, st["name"]) if st.get("name") else None
                 how = st["how"]
-                if how == "reexec":
+                if how == "unwrap":
+                    seg["ops"].append({"op": "exec_def", "name": n["name"], "src": "%s = %s.fn\n" % (n["name"], n["name"])})
+                elif how == "reexec":
                     if n["kind"] == "var":
                         seg["ops"].append({"op": "setvar", "name": n["name"], "val": n["val"]})
                     else:
                         # the definition and, as a notebook user would, the cells that bind it to other names
                         src = vprogs.fn_source(n)
+                        if n.get("post") == "fn" and n["kind"] == "mem":
+                            src += "\n%s = %s.fn\n" % (n["name"], n["name"])
                         overridden = {a[0] for a in prog.get("aliases", [])}
                         forms = {q["form"] for m_ in prog["nodes"] if "refs" in m_ for q in m_["refs"] if q["to"] == n["name"]}
                         if "alias" in forms and ("alias_" + n["name"]) not in overridden:
